@@ -70,14 +70,38 @@ LatchOne == {P("latch1", <<SIn("x", "signal-X", 0)>> \o (IF NeedsD(v) THEN <<SIn
                        <<Bin(">", X, Num(3)), Bin("<=", X, Num(3))>>, <<Bin(">", X, Num(3)), Bin(">", X, Num(5))>>,
                        <<Bin(">", X, Num(5)), Bin(">", X, Num(3))>>, <<Bin(">=", X, Num(2)), Bin("<=", X, Num(4))>>,
                        <<Bin("==", X, Num(3)), Bin("==", X, Num(5))>>}}
+\* the cell declared on the SAME signal type as the input that its set / reset conditions watch (legal; the latch feeds its
+\* own state back on that type, so every condition row must read the input from the input's wire only)
+LatchSameType == {P("latchs", <<SIn("x", TL, 0), Mem("l", TL), La(mode, v, sr[1], sr[2]), Rd("o", "l")>>, <<-3, 0, 1, 2, 3, 4, 5, 6, 7, MaxI>>) :
+               mode \in Modes, v \in {Num(1), Num(5)},
+               sr \in {<<Bin(">", X, Num(5)), Bin("<", X, Num(2))>>, <<Bin("<", X, Num(2)), Bin(">", X, Num(5))>>,
+                       <<Bin(">", X, Num(3)), Bin("<=", X, Num(3))>>, <<Bin("<", X, Num(4)), Bin(">=", X, Num(4))>>,
+                       <<Bin(">=", X, Num(5)), Bin("<=", X, Num(1))>>}}
+   \cup {P("latchs", <<SIn("s", TL, 0), InR, Mem("l", TL), La(mode, Num(1), Bin(">", S, Num(0)), Bin(">", R, Num(0))), Rd("o", "l")>>, <<-3, 0, 1, 5>>) : mode \in Modes}
+CellSameType == {
+  P("cells", <<InD, SIn("e", TM, 0), Mem("m", TM), Wr("m", D, Bin(">", E, Num(0))), Rd("o", "m")>>, Dom1),
+  P("cells", <<SIn("x", TM, 0), SIn("e", TM, 0), Mem("m", TM), Wr("m", Bin("+", X, Num(1)), Bin(">=", E, Num(2))), Rd("o", "m"), SLet("Signal", "p", Bin("+", ReadE("m"), Num(1)))>>, Dom1)
+ }
+\* several cells written under the SAME inline enable expression (identical sub-expressions are merged by CSE; every cell must still
+\* get its enable), and readers that come BEFORE the write statement in program order
+SameEnable == {
+  P("samee", <<InD, InE, Mem("m", TM), Mem("n", "signal-N"), Wr("m", D, c), Wr("n", Proj(Bin("+", D, Num(1)), TName("signal-N")), c), Rd("o", "m"), Rd("p", "n")>>, dm) :
+      c \in {Bin(">", E, Num(0)), E, Bin("&&", Bin(">", E, Num(0)), Bin("<", E, Num(5)))}, dm \in {<<0, 1, 2, 5>>}}
+  \cup {P("samee", <<InD, InE, Mem("m", TM), Mem("n", "signal-N"), Mem("k", "signal-K"), Wr("m", D, Bin(">", E, Num(0))), Wr("n", Proj(D, TName("signal-N")), Bin(">", E, Num(0))),
+                     Wr("k", Proj(Bin("*", D, Num(2)), TName("signal-K")), Bin(">", E, Num(0))), Rd("o", "m"), Rd("p", "n"), Rd("q", "k")>>, <<-3, 0, 1, 5>>)}
+EarlyReaders == {
+  P("early", <<InD, InE, Mem("m", TM), Rd("o", "m"), SLet("Signal", "p", Bin("*", ReadE("m"), Num(2))), Wr("m", D, Bin(">", E, Num(0)))>>, Dom1),
+  P("early", <<InD, InE, Mem("m", TM), SLet("Signal", "p", Bin("+", ReadE("m"), Num(1))), Wr("m", Bin("+", D, Num(1)), Bin(">=", E, Num(2))), Rd("o", "m")>>, Dom1),
+  P("early", <<InS, InR, Mem("l", TL), Rd("o", "l"), SLet("Signal", "p", Bin("+", ReadE("l"), Num(10))), La("set_reset", Num(1), Bin(">", S, Num(0)), Bin(">", R, Num(0)))>>, <<-3, 0, 1, 5>>)
+ }
 LatchMore == {
   P("latchx", <<InS, InR, Mem("l", TL), La("set_reset", Num(1), S, R), Rd("o", "l"), SLet("Signal", "p", Bin("+", ReadE("l"), Num(10)))>>, <<0, 1>>),
   P("latchx", <<InS, InR, Mem("l", ""), La("reset_set", Num(1), Bin(">", S, Num(0)), Bin(">", R, Num(0))), Rd("o", "l")>>, <<-3, 0, 1, 5>>),
   P("latchx", <<InS, InR, SIn("d", "signal-M", 5), SIn("e", "signal-E", 0), Mem("l", TL), Mem("m", "signal-M"), La("set_reset", Num(1), Bin(">", S, Num(0)), Bin(">", R, Num(0))),
                 Wr("m", D, Bin(">", E, Num(0))), Rd("o", "l"), Rd("p", "m")>>, <<0, 1, 5>>)
  }
-Cells == Cell1 \cup Shared \cup Readers \cup Two
-Latches == LatchTwo \cup LatchOne \cup LatchMore
+Cells == Cell1 \cup Shared \cup Readers \cup Two \cup CellSameType \cup SameEnable \cup EarlyReaders
+Latches == LatchTwo \cup LatchOne \cup LatchMore \cup LatchSameType
 ASSUME PrintT(<<"NPROGS", Cardinality(Cells), Cardinality(Latches)>>)
 ASSUME JsonSerialize(IOEnv.GEN_OUT, SetToSeq(Cells \cup Latches))
 =============================================================================
